@@ -394,9 +394,15 @@ Proof.
     + left. exists Queen. split; [discriminate|exact H].
     + right. right. exact H.
   - intros [[t [Ht H]]|[H|H]].
-    + destruct t; [tauto|tauto|tauto|tauto|tauto|contradiction Ht; reflexivity].
-    + tauto.
-    + tauto.
+    + destruct t.
+      * left. left. exact H.
+      * right. left. exact H.
+      * right. right. left. exact H.
+      * right. right. right. left. exact H.
+      * right. right. right. right. left. exact H.
+      * contradiction Ht. reflexivity.
+    + left. right. exact H.
+    + right. right. right. right. right. exact H.
 Qed.
 
 (** ** 4. No duplicates *)
@@ -475,11 +481,35 @@ Proof. rewrite king_only_expand. apply NoDup_S_king. Qed.
 
 (** ** 5. The king word, bit by bit *)
 Definition castle_k_cond : bool :=
-  cr_has_kingside (castle_rights b me) && (N.land (comb b) (kingside_squares me) =? 0)
-  && legal_king_move b (uright k) && legal_king_move b (uright (uright k)).
+  (cr_has_kingside (castle_rights b me) && (N.land (comb b) (kingside_squares me) =? 0))
+  && (legal_king_move b (uright k) && legal_king_move b (uright (uright k))).
 Definition castle_q_cond : bool :=
-  cr_has_queenside (castle_rights b me) && (N.land (comb b) (queenside_squares me) =? 0)
-  && legal_king_move b (uleft k) && legal_king_move b (uleft (uleft k)).
+  (cr_has_queenside (castle_rights b me) && (N.land (comb b) (queenside_squares me) =? 0))
+  && (legal_king_move b (uleft k) && legal_king_move b (uleft (uleft k))).
+
+Lemma castle_add_testbit (a c:bool) (W r d:N) :
+  N.testbit (if a then (if c then N.lxor W (bit r) else W) else W) d
+  = xorb (N.testbit W d) (a && c && (r =? d)).
+Proof.
+  destruct a, c; cbn [andb]; rewrite ?N.lxor_spec, ?testbit_bit, ?xorb_false_r; reflexivity.
+Qed.
+
+Definition king_fold : N :=
+  fold_left (fun mv dest => if legal_king_move b dest then mv else N.lxor mv (bit dest))
+            (squares_of (N.land (king_moves k) (mask_of b))) (N.land (king_moves k) (mask_of b)).
+
+Lemma king_word_unfold ic :
+  king_word b ic =
+  if ic then king_fold else
+    let W1 := if cr_has_kingside (castle_rights b me) && (N.land (comb b) (kingside_squares me) =? 0)
+              then (if legal_king_move b (uright k) && legal_king_move b (uright (uright k))
+                    then N.lxor king_fold (bit (uright (uright k))) else king_fold)
+              else king_fold in
+    if cr_has_queenside (castle_rights b me) && (N.land (comb b) (queenside_squares me) =? 0)
+    then (if legal_king_move b (uleft k) && legal_king_move b (uleft (uleft k))
+          then N.lxor W1 (bit (uleft (uleft k))) else W1)
+    else W1.
+Proof. reflexivity. Qed.
 
 Lemma king_word_testbit ic d :
   N.testbit (king_word b ic) d
@@ -487,22 +517,15 @@ Lemma king_word_testbit ic d :
                (negb ic && castle_k_cond && (uright (uright k) =? d)))
          (negb ic && castle_q_cond && (uleft (uleft k) =? d)).
 Proof.
-  unfold king_word, castle_k_cond, castle_q_cond. cbv zeta. fold k.
-  set (m0 := N.land (king_moves k) (mask_of b)).
-  set (W := fold_left _ (squares_of m0) m0).
-  assert (HW : N.testbit W d = N.testbit (king_moves k) d && N.testbit (mask_of b) d && legal_king_move b d).
-  { unfold W. rewrite king_fold_testbit. unfold m0. rewrite N.land_spec. reflexivity. }
-  destruct ic; cbn [negb andb].
-  - rewrite HW, !xorb_false_r. reflexivity.
-  - rewrite <- HW.
-    destruct (cr_has_kingside (castle_rights b me)); cbn [andb];
-    destruct (N.land (comb b) (kingside_squares me) =? 0); cbn [andb];
-    destruct (legal_king_move b (uright k)); cbn [andb];
-    destruct (legal_king_move b (uright (uright k))); cbn [andb];
-    destruct (cr_has_queenside (castle_rights b me)); cbn [andb];
-    destruct (N.land (comb b) (queenside_squares me) =? 0); cbn [andb];
-    destruct (legal_king_move b (uleft k)); cbn [andb];
-    destruct (legal_king_move b (uleft (uleft k))); cbn [andb];
-    rewrite ?N.lxor_spec, ?testbit_bit, ?xorb_false_r; reflexivity.
+  rewrite king_word_unfold.
+  assert (HW : N.testbit king_fold d
+               = N.testbit (king_moves k) d && N.testbit (mask_of b) d && legal_king_move b d).
+  { unfold king_fold. rewrite king_fold_testbit, N.land_spec. reflexivity. }
+  rewrite <- HW. generalize king_fold. intro W. clear HW.
+  unfold castle_k_cond, castle_q_cond.
+  destruct ic.
+  - change (negb true) with false. rewrite !andb_false_l, !xorb_false_r. reflexivity.
+  - change (negb false) with true. rewrite !andb_true_l. cbv zeta.
+    rewrite !castle_add_testbit. reflexivity.
 Qed.
 End Code.
